@@ -125,7 +125,17 @@ func New(maxConcurrent int, chQqueueSize int, v ...interface{}) *TaskPool {
 					tp.caller(f)
 				}
 			case <-tp.chClose:
-				return
+				// run the tasks that were queued before Stop.
+				for {
+					select {
+					case f := <-tp.chQqueue:
+						if f != nil {
+							tp.caller(f)
+						}
+					default:
+						return
+					}
+				}
 			}
 		}
 	}()
